@@ -3,32 +3,32 @@ Require Import TableProto.
 Import ListNotations.
 Local Open Scope N_scope.
 
-(* src/cache.rs, generic in key, value and hash function; every table size (mask) *)
+(* src/lcache.rs, generic in key, value and hash function; every table size (mask) *)
 Section C.
   Variable K V : Type.
   Variable keqb : K -> K -> bool.
   Hypothesis keqb_spec : forall a b, reflect (a = b) (keqb a b).
   Variable hash : K -> N.
 
-  Record cache := { cdata : tmap (option (K * V)); cmask : N; hits : N; faults : N; misses : N }.
-  Definition slot (c : cache) (k : K) := N.land (hash k) (cmask c).
-  Definition cnew (mask : N) : cache := {| cdata := tconst None; cmask := mask; hits := 0; faults := 0; misses := 0 |}.
-  Definition cget (c : cache) (k : K) : cache * option V :=
-    match tget (cdata c) (slot c k) with
+  Record lcache := { ldata : tmap (option (K * V)); lmask : N; hits : N; faults : N; misses : N }.
+  Definition slot (c : lcache) (k : K) := N.land (hash k) (lmask c).
+  Definition cnew (mask : N) : lcache := {| ldata := tconst None; lmask := mask; hits := 0; faults := 0; misses := 0 |}.
+  Definition cget (c : lcache) (k : K) : lcache * option V :=
+    match tget (ldata c) (slot c k) with
     | Some (k', v) =>
-      if keqb k' k then ({| cdata := cdata c; cmask := cmask c; hits := hits c + 1; faults := faults c; misses := misses c |}, Some v)
-      else ({| cdata := cdata c; cmask := cmask c; hits := hits c; faults := faults c + 1; misses := misses c + 1 |}, None)
-    | None => ({| cdata := cdata c; cmask := cmask c; hits := hits c; faults := faults c; misses := misses c + 1 |}, None)
+      if keqb k' k then ({| ldata := ldata c; lmask := lmask c; hits := hits c + 1; faults := faults c; misses := misses c |}, Some v)
+      else ({| ldata := ldata c; lmask := lmask c; hits := hits c; faults := faults c + 1; misses := misses c + 1 |}, None)
+    | None => ({| ldata := ldata c; lmask := lmask c; hits := hits c; faults := faults c; misses := misses c + 1 |}, None)
     end.
-  Definition cinsert (c : cache) (k : K) (v : V) : cache :=
-    {| cdata := tset (cdata c) (slot c k) (Some (k, v)); cmask := cmask c; hits := hits c; faults := faults c; misses := misses c |}.
-  Definition cclear (c : cache) : cache :=
-    {| cdata := tconst None; cmask := cmask c; hits := hits c; faults := faults c; misses := misses c |}.
+  Definition cinsert (c : lcache) (k : K) (v : V) : lcache :=
+    {| ldata := tset (ldata c) (slot c k) (Some (k, v)); lmask := lmask c; hits := hits c; faults := faults c; misses := misses c |}.
+  Definition cclear (c : lcache) : lcache :=
+    {| ldata := tconst None; lmask := lmask c; hits := hits c; faults := faults c; misses := misses c |}.
 
   Inductive op := Get (k : K) | Insert (k : K) (v : V) | Clear.
-  Definition step (c : cache) (o : op) : cache * option V :=
+  Definition step (c : lcache) (o : op) : lcache * option V :=
     match o with Get k => cget c k | Insert k v => (cinsert c k v, None) | Clear => (cclear c, None) end.
-  Fixpoint run (c : cache) (ops : list op) : cache :=
+  Fixpoint run (c : lcache) (ops : list op) : lcache :=
     match ops with [] => c | o :: r => run (fst (step c o)) r end.
 
   (* reference: the value most recently inserted under k since the last clear, scanning the history from its end *)
@@ -41,30 +41,27 @@ Section C.
     end.
   Fixpoint ngets (h : list op) : N := match h with [] => 0 | Get _ :: r => 1 + ngets r | _ :: r => ngets r end.
 
-  Definition CI (c : cache) (rev_hist : list op) : Prop :=
-    (forall i k v, tget (cdata c) i = Some (k, v) -> latest rev_hist k = Some v /\ i = slot c k) /\
+  Definition CI (c : lcache) (rev_hist : list op) : Prop :=
+    (forall i k v, tget (ldata c) i = Some (k, v) -> latest rev_hist k = Some v /\ i = slot c k) /\
     hits c + misses c = ngets rev_hist /\ faults c <= misses c.
 
   Lemma step_inv c h o : CI c h -> CI (fst (step c o)) (o :: h).
   Proof.
     intros (HD & HS & HF). destruct o as [k|k v|]; cbn [step fst].
-    - unfold cget. destruct (tget (cdata c) (slot c k)) as [[k' v']|] eqn:E; [destruct (keqb k' k)|];
+    - unfold cget. destruct (tget (ldata c) (slot c k)) as [[k' v']|] eqn:E; [destruct (keqb k' k)|];
         (split; [intros i k0 v0 Hi; cbn [latest]; exact (HD i k0 v0 Hi)|cbn [hits misses faults ngets fst]; idtac]).
       all: try lia.
-    - split; [|cbn [hits misses faults ngets cinsert]; lia]. intros i k0 v0 Hi. cbn [cinsert cdata] in Hi. cbn [latest].
+    - split; [|cbn [hits misses faults ngets cinsert]; lia]. intros i k0 v0 Hi. cbn [cinsert ldata] in Hi. cbn [latest].
       change (slot (cinsert c k v) k0) with (slot c k0).
       destruct (N.eq_dec i (slot c k)) as [->|Hne].
       + rewrite tget_set_same in Hi. injection Hi as -> ->. destruct (keqb_spec k0 k0); [auto|congruence].
       + rewrite tget_set_other in Hi by assumption. destruct (HD i k0 v0 Hi) as [Hl Hs].
         destruct (keqb_spec k k0) as [->|Hk]; [congruence|auto].
-    - split; [|cbn [hits misses faults ngets cclear]; lia]. intros i k0 v0 Hi. cbn [cclear cdata] in Hi.
+    - split; [|cbn [hits misses faults ngets cclear]; lia]. intros i k0 v0 Hi. cbn [cclear ldata] in Hi.
       rewrite tget_const in Hi. discriminate.
   Qed.
 
   (* C18: a lookup returns nothing, or the value most recently inserted under exactly that key since the last clear *)
-  Theorem get_sound ops k c' o : step (run (cnew (cmask c')) ops) (Get k) = (c', o) ->
-    o = None \/ o = latest (rev ops) k.
-  Proof. Abort.
   Lemma run_inv : forall ops c h, CI c h -> CI (run c ops) (rev ops ++ h).
   Proof.
     induction ops as [|o r IH]; intros c h H; cbn [run rev app]; [exact H|].
@@ -77,7 +74,7 @@ Section C.
     hits c + misses c = ngets (rev ops) /\ faults c <= misses c.
   Proof.
     intro c. pose proof (run_inv ops (cnew mask) [] (cnew_inv mask)) as (HD & HS & HF). rewrite app_nil_r in *. fold c in HD, HS, HF.
-    split; [|auto]. unfold cget. destruct (tget (cdata c) (slot c k)) as [[k' v']|] eqn:E; [|left; reflexivity].
+    split; [|auto]. unfold cget. destruct (tget (ldata c) (slot c k)) as [[k' v']|] eqn:E; [|left; reflexivity].
     destruct (keqb_spec k' k) as [->|Hne]; [|left; reflexivity]. right. cbn [snd]. symmetry. exact (proj1 (HD _ _ _ E)).
   Qed.
   Print Assumptions cache_sound.
